@@ -13,7 +13,8 @@ RULE = ('case = sorted theoretical list x sorted observed list (length 0..30, co
         'against unsorted peaks; non-trivial = some tolerance window holds >= 2 peaks or two windows overlap')
 ASSUMPTIONS = [
     'brute-force matcher: index j matches value v iff v - off <= peak[j] <= v + off with off = tol (th) or v*tol/1e6 (ppm), the same float expressions as the documented definition',
-    'matched-intensity clause: observed m/z values are distinct (a peak is identified by its m/z)',
+    'matched-intensity clause: a peak is an (index, m/z, intensity) entry of the spectrum, so two peaks may share an m/z; with tied m/z the exact value is asserted in mode all (closest / largest may pick either tied peak: range only)',
+    'coverage: one count per matched FRAGMENT object, however many peaks it matched',
     'binomial clause: tolerance > 0 and the observed spectrum spans a non-zero range',
 ]
 
